@@ -33,6 +33,23 @@ Please fix the way your object is copied or your __eq__ implementation.
     return new
 
 
+def contains_star_expression(node):
+    return (
+        (
+            isinstance(node, (ast.List, ast.Tuple))
+            and any(isinstance(e, ast.Starred) for e in node.elts)
+        )
+        or (isinstance(node, ast.Dict) and None in node.keys)
+        or (
+            isinstance(node, ast.Call)
+            and (
+                any(isinstance(a, ast.Starred) for a in node.args)
+                or any(kw.arg is None for kw in node.keywords)
+            )
+        )
+    )
+
+
 def ignore_old_value():
     return state().update_flags.fix or state().update_flags.update
 
@@ -70,6 +87,10 @@ class GenericValue(Snapshot):
                 return
 
             assert type(old_value) is type(value)
+
+            if contains_star_expression(node):
+                # the elements of the node do not correspond to the elements of the value
+                node = None
 
             adapter = self.get_adapter(old_value)
             if adapter is not None and hasattr(adapter, "items"):
